@@ -83,9 +83,10 @@ def deliver_terms(out):
 
 def compare_twins(base):
     def compare(it, a, b, p):
-        p.oblige(f"{base}/same-decision-sequence", a["taken"] == b["taken"], prop=P, detail={"a": a["taken"][-6:], "b": b["taken"][-6:]})
-        p.oblige(f"{base}/same-path-end", a["end"] == b["end"], prop=P, detail={"a": a["end"], "b": b["end"]})
-        p.oblige(f"{base}/same-path-condition", len(a["pc"]) == len(b["pc"]) and all(x.eq(y) for x, y in zip(a["pc"], b["pc"])), prop=P)
+        # (the two bodies need not branch alike: B runs under A's path condition and environment choices)
+        p.oblige(f"{base}/same-environment-interaction-order", b.get("guide_mismatch") is None, prop=P, detail=b.get("guide_mismatch"))
+        p.oblige(f"{base}/same-path-end", a["end"] == b["end"] or b.get("guide_mismatch") is not None, prop=P,
+                 detail={"a": a["end"], "b": b["end"]})
         ta, tb = a["trace"], b["trace"]
         same = len(ta) == len(tb) and all(x[0] == y[0] and same_tr(x[1], y[1]) for x, y in zip(ta, tb))
         first = next((i for i, (x, y) in enumerate(zip(ta, tb)) if x[0] != y[0] or not same_tr(x[1], y[1])), None)
